@@ -11,7 +11,8 @@ def T(module, *names, partial=False):
           "Kanzi.Properties.C06_ibs": "Kanzi.C06", "Kanzi.Properties.C08_ibs": "Kanzi.C08", "Kanzi.Properties.C08_obs": "Kanzi.C08",
           "Kanzi.Properties.C10_header": "Kanzi.C10", "Kanzi.Properties.C02_hash": "Kanzi.C02",
           "Kanzi.Properties.C03_facts": "Kanzi.C03", "Kanzi.Properties.C18_facts": "Kanzi.C18",
-          "Kanzi.Properties.C01": "Kanzi.C01", "Kanzi.Properties.C19_cli": "Kanzi.C19"}[module]
+          "Kanzi.Properties.C01": "Kanzi.C01", "Kanzi.Properties.C19_cli": "Kanzi.C19",
+          "Kanzi.Properties.C05_jobs": "Kanzi.C05", "Kanzi.Properties.C12_ans0": "Kanzi.C12"}[module]
     return [{"module": module, "name": n if n.startswith("Kanzi.") else ns + "." + n, "partial": partial or n.endswith("_partial")} for n in names]
 
 
@@ -49,6 +50,9 @@ FUZZDEC = {"name": "fuzzdec", "timeout": 7200}
 RACE = {"name": "race", "race": True, "timeout": 7200}
 CLI = {"name": "cli", "kmodel": "cli", "timeout": 7200}
 GOLDEN = {"name": "golden", "timeout": 7200}
+JOBS = {"name": "jobs", "kmodel": "jobs"}
+MJOBS = "Kanzi.Properties.C05_jobs"
+JOBS_T = ["C05_jobs_partition", "C05_jobs_fewer", "C05_jobs_closed_form", "C05_jobs_errors", "C05_bwt_chunks_covered_gen", "C05_bwt_chunks_covered"]
 
 C07_ALL = ["C07_enc_mutex", "C07_dec_mutex", "C07_enc_ordered", "C07_dec_ordered", "C07_enc_progress", "C07_dec_progress",
            "C07_enc_measure_mono", "C07_dec_measure_mono", "C07_enc_measure_init", "C07_dec_measure_init",
@@ -63,8 +67,9 @@ PROPS["C01"] = {
     "title": "Lossless round trip through the stream API", "design_ref": "5.1", "level": "proof",
     "technique": "Lean 4 theorems: writer emits chunks(B,data) for every partition/jobs/hint, container frames parse back, reader returns their concatenation for every jobs/hint/read sizes (composition = round trip under H_codec); transform-sequence skip-flag round trip; NONE codec proved; real-code round-trip search over all codecs",
     "theorems": T(M01, "C01_roundtrip", "C01_empty_stream") + T(W, "C04_writer_blocks") + T(R, "C05_reader_refines_spec") + T(K, "C10_stream_layout")
-                + T(M13, "C13_sequence", "C13_sequence_mode_byte", "C13_sequence_small") + T(M12, "C12_none"),
-    "streams": [SW, SR, RT, RTBIG],
+                + T(M13, "C13_sequence", "C13_sequence_mode_byte", "C13_sequence_small") + T(M12, "C12_none")
+                + T(MJOBS, "C05_bwt_chunks_covered", "C05_jobs_partition"),
+    "streams": [SW, SR, JOBS, RT, RTBIG],
     "level_text": "PROOF of the stream layer under assumption H_codec, plus search. Proved for all data, all partitions into Write calls, all job counts on both sides, all size-hint values, all read sizes: Write/Close succeed, the blocks are chunks(B,data), the framed stream parses back to them, and the reader returns exactly data then end-of-stream (C01_roundtrip = C04_writer_blocks + C10_stream_layout + C05_reader_refines_spec); the transform sequence with any pattern of declined stages and both skip-flag layouts round-trips (C13_sequence*); NONE entropy proved (C12_none). ASSUMED (H_codec) for the other transforms/entropy codecs: decode(encode(block)) = block - searched on the real code (rt/rtbig: every transform and entropy, chains up to 8, all data shapes, block sizes, jobs, hints, headerless).",
     "level_note": BASE_NOTE + "H_codec for 17 transforms and 8 entropy codecs is an assumption covered only by the rt/rtbig search; buffer-size sufficiency of the decoder for chained expanding transforms is searched, not proved.",
     "assumptions": ["H_codec: per-block decode(encode(b)) = b and consumes exactly the encoder's bits, for codecs other than NONE/ZRLT/SBRT/Null"],
@@ -107,9 +112,10 @@ PROPS["C05"] = {
     "title": "Decoded output is independent of parallelism and preserves block order", "design_ref": "5.5", "level": "proof",
     "technique": "Lean 4 refinement theorem Reader model -> cursor over the concatenated blocks for all jobs/hints/read sizes; protocol theorems for every N; differential correspondence incl. failing blocks",
     "theorems": T(R, "C05_reader_refines_spec", "C05_error_position", "C02_nothing_after_error")
-                + T(M07, "C05_schedule_independent", "C07_dec_ordered", "C07_dec_mutex", "C07_dec_cancel_stable"),
-    "streams": [SR, PROTO],
-    "level_text": "PROOF. For every well-formed stream, every decoder job count, every size hint and every sequence of Read sizes the reader model returns exactly the next bytes of the concatenation of the blocks in stream order, each once (refinement to a cursor, C05_reader_refines_spec); when a block fails, every byte ever returned lies before it and nothing is returned after the error (C05_error_position, C02_nothing_after_error); every interleaving of the decode tasks reads frame k by task k only (C05_schedule_independent, all N). Tie: streams built by an independent container builder, read by the real Reader (jobs 1..64, wrong hints, short source reads, failing/oversize/truncated frames), compared call by call; hook traces of real batches replayed through the protocol model.",
+                + T(M07, "C05_schedule_independent", "C07_dec_ordered", "C07_dec_mutex", "C07_dec_cancel_stable")
+                + T(MJOBS, *JOBS_T),
+    "streams": [SR, PROTO, JOBS],
+    "level_text": "PROOF. For every well-formed stream, every decoder job count, every size hint and every sequence of Read sizes the reader model returns exactly the next bytes of the concatenation of the blocks in stream order, each once (refinement to a cursor, C05_reader_refines_spec); when a block fails, every byte ever returned lies before it and nothing is returned after the error (C05_error_position, C02_nothing_after_error); every interleaving of the decode tasks reads frame k by task k only (C05_schedule_independent, all N); the split of jobs among block tasks and of the 8 inverse-BWT chunks among goroutines is a partition for every job count (C05_jobs_partition, C05_bwt_chunks_covered; model of internal.ComputeJobsPerTask tied exhaustively for jobs,tasks <= 70 through a verif-tagged export). Tie: streams built by an independent container builder, read by the real Reader (jobs 1..64, wrong hints, short source reads, failing/oversize/truncated frames), compared call by call; hook traces of real batches replayed through the protocol model.",
     "level_note": BASE_NOTE + "Codec decode is abstracted to 'frame decodes to block / fails in or after the critical section'.",
     "assumptions": ["H_codec for the blocks (decode of an encoded block returns the block)"],
 }
@@ -182,9 +188,10 @@ PROPS["C12"] = {
     "title": "Entropy codecs: exact inverse pairs with bit-exact consumption", "design_ref": "5.12", "level": "proof",
     "technique": "PARTIAL Lean proof: varint, alphabet, NONE codec, ANS/Range frequency headers, rANS step incl. reciprocal division proved as inverse pairs with exact consumption on bit strings; whole ANS0 chunks tied differentially; all 9 codecs searched directly on the real code",
     "theorems": T(M12, "C12_varint", "C12_alphabet", "C12_none", "C12_freq_header", "C12_freq_header_needs_sum", "C12_freq_header_after_normalize", "C12_ans_reciprocal", "C12_ans_encode_closed_form", "C12_ans_step")
-                + T(M16, "C16_normalize"),
+                + T(M16, "C16_normalize")
+                + T("Kanzi.Properties.C12_ans0", "C12_ans0_single_state", "C12_ans0_interleaved", "C12_ans0_payload_le", "C12_ans0_chunk", "C12_ans0_chunk_sz", "C12_ans0_one_chunk", "C12_ans0_block"),
     "streams": [ENTSMALL, ENTDIRECT],
-    "level_text": "PARTIAL PROOF. Proved in Lean, each as `decode (encode x ++ rest) = (x, rest)` for every trailing bit string (exact consumption): VarInt, alphabet (all three encodings), the NONE codec for every length incl. 0 and > 2^23, the ANS order-0 and Range frequency headers (correct iff the table sums to 2^lr - which C16_normalize guarantees: C12_freq_header_after_normalize), one rANS step incl. the reciprocal-multiply division for every frequency and state. The ANS order-0 chunk loop (4 interleaved states) is modelled and tied differentially (byte-identical output on thousands of blocks) but has no theorem. NOT modelled: Huffman, Range arithmetic, ANS order 1, FPAQ, CM, TPAQ, TPAQX - searched directly on the real code (entdirect: all 9 codecs, lengths around every chunk boundary, 1..256 symbols, adversarial histograms, misaligned start, trailing sentinel, Read()==Written()).",
+    "level_text": "PARTIAL PROOF. Proved in Lean, each as `decode (encode x ++ rest) = (x, rest)` for every trailing bit string (exact consumption): VarInt, alphabet (all three encodings), the NONE codec for every length incl. 0 and > 2^23, the ANS order-0 and Range frequency headers (correct iff the table sums to 2^lr - which C16_normalize guarantees: C12_freq_header_after_normalize), one rANS step incl. the reciprocal-multiply division for every frequency and state. The whole ANS order-0 codec is proved: one state over any symbol list, the 4 interleaved states sharing one word stream, header + chunk, and the complete block Write/Read with per-chunk normalised tables (C12_ans0_block: for all bytes, lr in [8,15], chunk size < 2^26, decode(encode blk ++ rest) = (blk, rest)); the same model is tied differentially (byte-identical output on thousands of blocks). NOT modelled: the encoder's finite output buffer for ANS0, Huffman, Range arithmetic, ANS order 1, FPAQ, CM, TPAQ, TPAQX - searched directly on the real code (entdirect: all 9 codecs, lengths around every chunk boundary, 1..256 symbols, adversarial histograms, misaligned start, trailing sentinel, Read()==Written()).",
     "level_note": BASE_NOTE + "logRange restricted to [8,15] as used by the factory (16 is accepted by the public constructors but unusable: observation in DESIGN.md).",
     "assumptions": ["adaptive binary codecs run the identical predictor on both sides (searched)"],
 }
@@ -264,7 +271,7 @@ PROPS["C19"] = {
     "assumptions": ["close(2) reports deferred write errors", "unlink is atomic"],
 }
 
-HOOK_COMMITS = ["a321cbc"]
+HOOK_COMMITS = ["a321cbc", "4ed9fca"]
 
 # properties not (yet) claimed: reason shown in MANIFEST.not_applicable
 NOT_APPLICABLE = {}
